@@ -196,6 +196,29 @@ Theorem C08_next_seq_small : forall st, in_srange 4 (st + 1) -> next_seq st = st
 Proof. exact next_seq_small. Qed.
 Print Assumptions C08_next_seq_small.
 
+(* ---- streaming functions (annotation streaming.mode, no thrift_streaming option) are taken out of the
+        services of the main file before generation; every other function stays, in order, and is
+        dispatched under its IDL name; a removed function's name is unknown to the processor ---- *)
+
+Theorem C08_streaming_removed : forall l g,
+  In g (remove_streaming l) <-> exists f, In f l /\ fs_fn f = g /\ fs_stream f = None.
+Proof. exact remove_streaming_spec. Qed.
+Print Assumptions C08_streaming_removed.
+
+Theorem C08_kept_function_dispatched : forall s f,
+  In f (ss_funs s) -> fs_stream f = None ->
+  NoDup (map fn_name (sv_funs (effective s))) ->
+  find_method (own_methods (effective s)) (fn_name (fs_fn f)) = Some (ss_name s, fs_fn f).
+Proof. exact kept_function_dispatched. Qed.
+Print Assumptions C08_kept_function_dispatched.
+
+Theorem C08_streaming_function_unknown : forall s name,
+  ss_main s = true ->
+  (forall f, In f (ss_funs s) -> fn_name (fs_fn f) = name -> fs_stream f <> None) ->
+  find_method (own_methods (effective s)) name = None.
+Proof. exact streaming_function_unknown. Qed.
+Print Assumptions C08_streaming_function_unknown.
+
 (* ---- the hypotheses are satisfiable: a base service in file "b", a service extending it in
         file "a" (value / void / oneway methods, two declared exceptions) ---- *)
 
@@ -244,4 +267,13 @@ Example ex_run :
     (2, COneway, [((B "a.Svc", ex_fire), [VStr (B "x")])]);
     (3, CRet (VInt 7), [((B "b.Base", ex_ping), [VInt (-1)])]);
     (4, CVoid, [((B "a.Svc", ex_nop), [])]) ].
+Proof. vm_compute. reflexivity. Qed.
+
+(* the same service as written in the IDL, with a streaming function between add and fire *)
+Definition ex_src : service_src :=
+  mksrc (B "a.Svc") (Some (B "b.Base")) true
+        [mkfsrc ex_add None;
+         mkfsrc (mkfun (B "watch") false (Some TString) [mkfield 1 (B "req") Default TString None false] []) (Some [mode_server]);
+         mkfsrc ex_fire None; mkfsrc ex_nop None].
+Example ex_effective : effective ex_src = mksvc (B "a.Svc") (Some (B "b.Base")) [ex_add; ex_fire; ex_nop].
 Proof. vm_compute. reflexivity. Qed.
